@@ -60,3 +60,15 @@ func VerifC16BeforeFlight(c *Cache, before func(key string)) {
 	}
 	c.barrier = &verifC16Barrier{inner: c.barrier, before: before}
 }
+
+// VerifC16GateExpiry puts gate in front of the cache's wheel callback: gate(key) runs on the
+// wheel's callback goroutine (the one timingwheel.go's runTasks starts after the tick has
+// removed the fired timers) before the callback itself, cache.Del(key).  Call it right after
+// NewCache, before the wheel has been given anything to do.
+func VerifC16GateExpiry(c *Cache, gate func(key any)) {
+	orig := c.timingWheel.execute
+	c.timingWheel.execute = func(k, v any) {
+		gate(k)
+		orig(k, v)
+	}
+}
